@@ -159,6 +159,21 @@ type treeCtx struct {
 	shuffle  bool
 	prefix   func() string // prefix to use for a compact IRI
 	extAlias string        // declared alias of the API-extension namespace ("" = only the built-in apiExt)
+	// atoms (cardinality on one plain property) that are written as an embedded Rego constraint with the same meaning
+	regoAtoms map[int]bool
+}
+
+// regoFor: the embedded-Rego spelling of a cardinality atom on a single forward property, or "" when the atom has none
+func regoFor(a Atom, ix int) string {
+	if a.Path.P == nil || a.Path.Inv || *a.Path.P == "@type" || strings.HasPrefix(*a.Path.P, ApiExtNS) || a.Arg == nil {
+		return ""
+	}
+	op := map[string]string{"minCount": ">=", "maxCount": "<=", "exactCount": "=="}[a.Kind]
+	if op == "" {
+		return ""
+	}
+	// fragments placed in one failure branch share one rule body: every fragment uses a variable name of its own
+	return fmt.Sprintf(`vals_%d = nodes_array with data.nodes as object.get($node, "%s", []); $result = count(vals_%d) %s %d`, ix, *a.Path.P, ix, op, *a.Arg)
 }
 
 func (c *treeCtx) pathText(p Path) string {
@@ -239,6 +254,9 @@ func (c *treeCtx) asPc(r Rule) (pcEntry, bool) {
 	switch {
 	case r.Atom != nil:
 		a := c.atoms[*r.Atom]
+		if c.regoAtoms[*r.Atom] && regoFor(a, *r.Atom) != "" {
+			return pcEntry{}, false
+		}
 		return pcEntry{path: c.pathText(a.Path), key: a.Kind, fill: func(m *ynode) { c.atomConstraint(m, a) }}, true
 	case r.Nested != nil:
 		p := c.pathText(c.paths[*r.PathIx])
@@ -287,6 +305,11 @@ func (c *treeCtx) pcMap(entries []pcEntry) *ynode {
 }
 
 func (c *treeCtx) rule(r Rule) *ynode {
+	if r.Atom != nil && c.regoAtoms[*r.Atom] {
+		if code := regoFor(c.atoms[*r.Atom], *r.Atom); code != "" {
+			return ymap().put("rego", ystr(code))
+		}
+	}
 	if e, ok := c.asPc(r); ok {
 		return c.pcMap([]pcEntry{e})
 	}
@@ -339,7 +362,7 @@ func (c *treeCtx) rule(r Rule) *ynode {
 
 // profileTree builds the YAML tree; shuffle=false gives the canonical spelling
 func profileTree(g *G, p ProfileSpec, shuffle bool, prefixes []string) *ynode {
-	c := &treeCtx{atoms: p.Atoms, paths: p.Paths, g: g, shuffle: shuffle}
+	c := &treeCtx{atoms: p.Atoms, paths: p.Paths, g: g, shuffle: shuffle, regoAtoms: p.RegoAtoms}
 	c.prefix = func() string { return prefixes[g.n(len(prefixes))] }
 	if !shuffle {
 		c.prefix = func() string { return prefixes[0] }
@@ -446,6 +469,16 @@ func genC15(g *G, n int, out io.Writer) {
 			base.Validations[k].Level = []string{"violation", "warning", "info"}[g.n(3)]
 		}
 		spec := ProfileSpec{Name: fmt.Sprintf("c15_%d", i), Atoms: base.Atoms, Paths: base.Paths, Validations: base.Validations}
+		if g.coin(0.3) {
+			// some cardinality atoms are spelled as embedded Rego (the same spelling in all three texts): operands of and/or
+			// that differ only in their code
+			spec.RegoAtoms = map[int]bool{}
+			for k := range spec.Atoms {
+				if g.coin(0.6) {
+					spec.RegoAtoms[k] = true
+				}
+			}
+		}
 		if g.coin(0.4) {
 			// a name that is listed under a level but not defined (say, a removed validation): ignored wherever it stands in the list
 			spec.Dangling = map[string][]string{}
